@@ -814,7 +814,7 @@ def H1(F, rep, FL):
                 bad = ('%d updates of %s on a committing path' % (len(bumps), counter), evs)
                 break
             if kind == 'container':
-                b_ = bumps[0]['n']
+                b_ = deep_resolve(bumps[0]['n'], fn)     # const auto addedSize = ...; counter += addedSize;
                 has_hdr = any(x.get('k') == 'Call' and x.get('fn') == 'internalHeaderSize' for x in walk(b_))
                 has_fld = any(x.get('k') == 'Member' and x.get('name') == 'uncompressedFileSize' for x in walk(b_))
                 # uncompressedFile.size() stands for the field only while the size invariant established by
@@ -2372,7 +2372,7 @@ def R2(F, rep, FL):
         for n in walk(fn['body'], into_lambda=False):
             if n.get('k') != 'If':
                 continue
-            atoms = _cmp_atoms(n['cond'])
+            atoms = _cmp_atoms(deep_resolve(n['cond'], fn))      # (a private helper endsBehindEof(n) stands for the comparison it returns)
             if not any(a[1] == '>' and 'm_tellg' in a[0] and a[2] == 'm_fileSize' for a in atoms):
                 continue
             asg = [x for x in walk(n.get('then') or {}) if x.get('k') == 'Bin' and x.get('op') == '=' and strip_all_casts(x['lhs']).get('name') == 'n']
@@ -2393,7 +2393,7 @@ def R2(F, rep, FL):
             npaths += 1
             seen = False
             for e in evs:
-                if e['ev'] == 'branch' and any(a[1] == '>' and 'm_tellg' in a[0] and a[2] == 'm_fileSize' for a in _cmp_atoms(e['n'])):
+                if e['ev'] == 'branch' and any(a[1] == '>' and 'm_tellg' in a[0] and a[2] == 'm_fileSize' for a in _cmp_atoms(deep_resolve(e['n'], fn))):
                     seen = True
             if not seen:
                 skipped = evs
@@ -3201,6 +3201,30 @@ def K13(F, rep, R):
     is no longer held back by the capacity and buffers the rest of the file"""
     rep.count('K13')
     allowed = {R.close_fn['name']}
+    # ... or by a private part of close() (stopReadSession()): a File method that no thread entry reaches
+    worker_reach = set()
+    for q in R.threads:
+        todo = [q]
+        while todo:
+            nm = todo.pop()
+            if nm in worker_reach:
+                continue
+            worker_reach.add(nm)
+            for f_ in F.functions.get(nm, []):
+                for x in walk(f_['body']):
+                    if x.get('k') == 'Call' and (x.get('callee') or '').startswith(FILE + '::') and x.get('calleeInRoot'):
+                        todo.append(x['callee'])
+    close_reach = set()
+    todo = [R.close_fn['name']]
+    while todo:
+        nm = todo.pop()
+        if nm in close_reach:
+            continue
+        close_reach.add(nm)
+        for f_ in F.functions.get(nm, []):
+            for x in walk(f_['body']):
+                if x.get('k') == 'Call' and (x.get('callee') or '').startswith(FILE + '::') and x.get('calleeInRoot'):
+                    todo.append(x['callee'])
     bad = []
     n = 0
     for name, fns in F.functions.items():
@@ -3208,7 +3232,8 @@ def K13(F, rep, R):
             for x in walk(fn['body']):
                 if x.get('k') == 'Call' and x.get('fn') == 'abort' and x.get('calleeInRoot'):
                     n += 1
-                    if fn['name'] in allowed or fn.get('kind') == 'dtor':
+                    if fn['name'] in allowed or fn.get('kind') == 'dtor' or \
+                            (fn.get('class') == FILE and fn.get('access') == 2 and fn['name'] in close_reach and fn['name'] not in worker_reach):
                         continue
                     bad.append('%s calls %s (line %s)' % (short(fn['name']), short(x.get('callee') or 'abort'), x.get('l')))
     rep.ob('K13', 'abort|callers', not bad and n > 0, rep.fn_site(R.close_fn),
